@@ -5,7 +5,7 @@ From Coq Require Import List ZArith Bool Arith.
 Import ListNotations.
 From LinDBV.C04 Require Import Model.
 From LinDBV.C03 Require Import Model.
-From LinDBV.C12 Require Import Model.
+From LinDBV.C12 Require Import Model TopN.
 Open Scope Z_scope.
 
 (* a layout as the harness describes it *)
@@ -134,3 +134,36 @@ Definition oracle (sc : list (list (key * Z))) (pts : list point) (q : query) (d
 Definition check_pair (pts : list point) (q : query) (dref d : ldesc) (oref o : obs) : nat * nat :=
   let sc := contribs_by_series pts q in
   (corr sc pts q dref d oref o, oracle sc pts q d oref o).
+
+(* ---- order by <item> [desc] limit n (aggregation/order_by.go, topn.go; the item is a selected sum / min / max field,
+   its rank the field type's aggregate of the group's values over the slots) ---- *)
+Record topq := mkTop { t_item : nat; t_desc : bool; t_fn : nat; t_limit : nat }.
+Definition e_item (e : entry) : nat := fst (fst (fst e)).
+Definition e_group (e : entry) : list nat := snd (fst (fst e)).
+Definition groups_of (es : list entry) : list (list nat) := nodupb list_eqb (map e_group es).
+Definition rank (t : topq) (es : list entry) (g : list nat) : Z :=
+  match map (fun e : entry => snd e) (filter (fun e => Nat.eqb (e_item e) (t_item t) && list_eqb (e_group e) g) es) with
+  | [] => 0
+  | v :: r => fold_left (agg (t_fn t)) r v
+  end.
+Definition ranked (t : topq) (es : list entry) : list row := map (fun g => (g, rank t es g)) (groups_of es).
+Fixpoint has_dup (l : list Z) : bool := match l with [] => false | x :: r => existsb (Z.eqb x) r || has_dup r end.
+(* equal ranks: which of the groups the heap keeps is not determined *)
+Definition undetermined (t : topq) (es : list entry) : bool :=
+  Nat.ltb (t_limit t) (length (groups_of es)) && has_dup (map snd (ranked t es)).
+Definition keep_top (t : topq) (es : list entry) : list entry :=
+  let kept := topn (t_limit t) (t_desc t) (ranked t es) in
+  filter (fun e => existsb (fun r : row => list_eqb (fst r) (e_group e)) kept) es.
+Definition top_obs (t : topq) (o : obs) : obs := match o with ORes es => ORes (keep_top t es) | e => e end.
+Definition all_entries (o : obs) : list entry := match o with ORes es => es | _ => [] end.
+
+Definition check_pair_top (pts : list point) (q : query) (t : topq) (dref d : ldesc) (oref o : obs) : nat * nat :=
+  let sc := contribs_by_series pts q in
+  let full := asis dref pts q in
+  if undetermined t (all_entries full) then (0%nat, 0%nat)
+  else
+    let c := if negb (wf_b dref pts q && wf_b d pts q) then 3%nat
+             else if negb (obs_agree sc q (top_obs t full) oref) then 1%nat
+             else if negb (obs_agree sc q (top_obs t (asis d pts q)) o) then 2%nat
+             else 0%nat in
+    (c, oracle sc pts q d oref o).
